@@ -2,6 +2,8 @@
 
 package gene
 
+import "github.com/biogo/biogo/feat"
+
 // Contracts for the deductive verifier in /verif (govc). This file is only
 // compiled with -tags verif; it adds no behaviour to the package.
 
@@ -22,6 +24,93 @@ package gene
 //@   ensures [atomic]  result1 != nil ==> len(result0) == len(s) && arr(result0) == arr(s) && off(result0) == off(s)
 //@   ensures [atomic-elems] result1 != nil ==> forall i int :: 0 <= i && i < len(s) ==> s[i] == old(s[i])
 //@   ensures [atomic-input] result1 != nil ==> forall i int :: 0 <= i && i < len(exons) ==> exons[i] == old(exons[i])
+//@   assigns fresh
 //@   loop 1 invariant 0 <= idx && idx <= len(newSlice)
 //@   loop 1 invariant forall k int :: 0 < k && k < idx ==> newSlice[k].Offset >= newSlice[k-1].Offset + newSlice[k-1].Length
 //@   loop 1 invariant forall k int :: 0 < k && k < idx ==> newSlice[k].Transcript == newSlice[k-1].Transcript
+
+//@ func (Exons).Introns
+//@   property C20
+//@   requires sortedNonOverlap(s)
+//@   ensures [count0] len(s) < 2 ==> len(result) == 0
+//@   ensures [count]  len(s) >= 2 ==> len(result) == len(s) - 1
+//@   ensures [tiling] forall i int :: 0 <= i && i < len(result) ==> result[i].Offset == s[i].Offset + s[i].Length && result[i].Offset + result[i].Length == s[i+1].Offset && result[i].Length >= 0
+//@   ensures [loc]    forall i int :: 0 <= i && i < len(result) ==> result[i].Transcript == s[i+1].Transcript
+//@   ensures [frame]  forall i int :: 0 <= i && i < len(s) ==> s[i] == old(s[i])
+//@   assigns fresh
+//@   loop 1 invariant 1 <= i && i <= len(s) && len(introns) == i - 1
+//@   loop 1 invariant forall k int :: 0 <= k && k < i - 1 ==> introns[k].Offset == s[k].Offset + s[k].Length && introns[k].Offset + introns[k].Length == s[k+1].Offset && introns[k].Length >= 0
+//@   loop 1 invariant forall k int :: 0 <= k && k < i - 1 ==> introns[k].Transcript == s[k+1].Transcript
+//@   loop 1 invariant fresh(introns) || arr(introns) == 0
+//@   loop 1 decreases len(s) - i
+
+//@ func buildExonsFor
+//@   property C20
+//@   ensures [sorted]  result1 == nil ==> sortedNonOverlap(result0) && sameLoc(result0) && len(result0) == len(exons)
+//@   ensures [loc]     result1 == nil && len(exons) > 0 ==> result0[0].Transcript == t
+//@   ensures [zero]    result1 == nil && len(exons) > 0 ==> result0[0].Offset == 0
+//@   ensures [input]   forall i int :: 0 <= i && i < len(exons) ==> exons[i] == old(exons[i])
+//@   assigns fresh
+
+//@ func (*CodingTranscript).SetExons
+//@   property C20
+//@   requires t != nil
+//@   assigns t.exons, fresh
+//@   ensures [accepted] result == nil ==> sortedNonOverlap(t.exons) && sameLoc(t.exons)
+//@   ensures [rejected] result != nil ==> t.exons == old(t.exons) && forall i int :: 0 <= i && i < len(t.exons) ==> t.exons[i] == old(t.exons[i])
+//@ func (*NonCodingTranscript).SetExons
+//@   property C20
+//@   requires t != nil
+//@   assigns t.exons, fresh
+//@   ensures [accepted] result == nil ==> sortedNonOverlap(t.exons) && sameLoc(t.exons)
+//@   ensures [rejected] result != nil ==> t.exons == old(t.exons) && forall i int :: 0 <= i && i < len(t.exons) ==> t.exons[i] == old(t.exons[i])
+
+//@ func (*Gene).SetFeatures
+//@   property C20
+//@   requires g != nil
+//@   requires forall i int :: 0 <= i && i < len(feats) ==> feats[i] != nil
+//@   ensures [rejected] result != nil ==> g.feats == old(g.feats) && g.length == old(g.length)
+//@   ensures [accepted] result == nil ==> g.feats == feats
+//@   loop 1 invariant 0 <= idx && idx <= len(feats) && g.feats == old(g.feats) && g.length == old(g.length)
+
+// ---- coding regions ---------------------------------------------------------
+// lenOf is the transcript length as computed by (*CodingTranscript).Len.
+//@ spec exonsEnd(s Exons) int = len(s) == 0 ? 0 : s[len(s)-1].Offset + s[len(s)-1].Length
+
+//@ func (*CodingTranscript).UTR5
+//@   property C20
+//@   requires t != nil && depth(t) < 1000 && baseOriOf(t) != 0
+//@   ensures [fresh]   typeis(result, *TranscriptFeature) && fresh(ref(result))
+//@   ensures [forward] baseOriOf(t) == 1 ==> result.(*TranscriptFeature).Offset == 0 && result.(*TranscriptFeature).Length == t.CDSstart
+//@   ensures [reverse] baseOriOf(t) == -1 ==> result.(*TranscriptFeature).Offset == t.CDSend && result.(*TranscriptFeature).Length == exonsEnd(t.exons) - t.CDSend
+//@   assigns fresh
+//@ func (*CodingTranscript).UTR3
+//@   property C20
+//@   requires t != nil && depth(t) < 1000 && baseOriOf(t) != 0
+//@   ensures [fresh]   typeis(result, *TranscriptFeature) && fresh(ref(result))
+//@   ensures [forward] baseOriOf(t) == 1 ==> result.(*TranscriptFeature).Offset == t.CDSend && result.(*TranscriptFeature).Length == exonsEnd(t.exons) - t.CDSend
+//@   ensures [reverse] baseOriOf(t) == -1 ==> result.(*TranscriptFeature).Offset == 0 && result.(*TranscriptFeature).Length == t.CDSstart
+//@   assigns fresh
+//@ func (*CodingTranscript).CDS
+//@   property C20
+//@   requires t != nil
+//@   ensures [fresh] typeis(result, *TranscriptFeature) && fresh(ref(result))
+//@   ensures [cds]   result.(*TranscriptFeature).Offset == t.CDSstart && result.(*TranscriptFeature).Length == t.CDSend - t.CDSstart
+//@   assigns fresh
+
+// The three regions abut and cover [0, Len) in the order the orientation dictates.
+//@ func verifLemmaRegionsTile
+//@   property C20
+//@   lemma
+//@   requires t != nil && depth(t) < 1000 && baseOriOf(t) != 0
+//@   ensures [forward] baseOriOf(t) == 1 ==> u5.(*TranscriptFeature).Offset == 0
+//@               && u5.(*TranscriptFeature).Offset + u5.(*TranscriptFeature).Length == cds.(*TranscriptFeature).Offset
+//@               && cds.(*TranscriptFeature).Offset + cds.(*TranscriptFeature).Length == u3.(*TranscriptFeature).Offset
+//@               && u3.(*TranscriptFeature).Offset + u3.(*TranscriptFeature).Length == exonsEnd(t.exons)
+//@   ensures [reverse] baseOriOf(t) == -1 ==> u3.(*TranscriptFeature).Offset == 0
+//@               && u3.(*TranscriptFeature).Offset + u3.(*TranscriptFeature).Length == cds.(*TranscriptFeature).Offset
+//@               && cds.(*TranscriptFeature).Offset + cds.(*TranscriptFeature).Length == u5.(*TranscriptFeature).Offset
+//@               && u5.(*TranscriptFeature).Offset + u5.(*TranscriptFeature).Length == exonsEnd(t.exons)
+func verifLemmaRegionsTile(t *CodingTranscript) (u5, cds, u3 feat.Feature) {
+	return t.UTR5(), t.CDS(), t.UTR3()
+}
